@@ -108,6 +108,11 @@ def _stimuli_from_behaviour(k: int, beh, rng: random.Random) -> List[Dict[str, A
             else:
                 posmap = sorted(rng.sample(range(24), 3))
                 stim["list"] = LISTS[(k + (3 if door == "config" else 0)) % len(LISTS)]
+                if door == "config" and k % 2 == 0:
+                    # loaded by the environment (reset / setup_for_episode), with rules of its own at the positions where
+                    # a router keeps its built-in ARP and ICMP rules (22, 23)
+                    stim["via_env"] = True
+                    posmap = sorted([rng.randrange(22), 22, 23])
             ops = _ops_from_behaviour(beh, PORTMAP, posmap)
             if cls == "sentinel":
                 ops = _sentinel_copy(ops, rng)
